@@ -335,6 +335,10 @@ struct State {
 
 struct Shared {
     m: Mutex<State>,
+    /// mirror of `State::current`, so a client that has just handed the baton on can spin
+    /// briefly for its return instead of paying a futex round trip (who runs is still decided
+    /// only under the lock, by the baton holder)
+    cur: std::sync::atomic::AtomicUsize,
     cvs: Vec<Condvar>,
     main_cv: Condvar,
     scenario: Scenario,
@@ -512,6 +516,7 @@ impl Shared {
             st.sig.u64(code);
             st.recorded.push((seq, next as u32));
             st.current = next;
+            self.cur.store(next, std::sync::atomic::Ordering::Release);
             self.cvs[next].notify_one();
         }
         if exiting {
@@ -520,6 +525,17 @@ impl Shared {
             }
             return;
         }
+        if st.current == me {
+            return;
+        }
+        drop(st);
+        for _ in 0..spin_iterations() {
+            if self.cur.load(std::sync::atomic::Ordering::Acquire) == me {
+                return;
+            }
+            std::hint::spin_loop();
+        }
+        let mut st = self.m.lock().unwrap();
         while st.current != me {
             st = self.cvs[me].wait(st).unwrap();
         }
@@ -911,6 +927,12 @@ fn do_read(shared: &Arc<Shared>, me: usize, op_idx: usize, slot: u8) {
 // ---------------------------------------------------------------- running a scenario
 
 pub const STALL_LIMIT: Duration = Duration::from_secs(30);
+const SPIN_ITERATIONS: u32 = 300;
+
+fn spin_iterations() -> u32 {
+    static N: std::sync::OnceLock<u32> = std::sync::OnceLock::new();
+    *N.get_or_init(|| std::env::var("C19_SPIN").ok().and_then(|v| v.parse().ok()).unwrap_or(SPIN_ITERATIONS))
+}
 
 pub fn estimate_events(sc: &Scenario) -> u64 {
     let mut n = 0u64;
@@ -982,6 +1004,7 @@ pub fn run_scenario(sc: &Scenario) -> RunResult {
     };
     let shared = Arc::new(Shared {
         m: Mutex::new(state),
+        cur: std::sync::atomic::AtomicUsize::new(first),
         cvs: (0..n).map(|_| Condvar::new()).collect(),
         main_cv: Condvar::new(),
         scenario: sc.clone(),
